@@ -27,7 +27,7 @@ def HELPER(self, x=1):
 
 INV = {"-": None, "C": "icontract.InvariantCheckEvent.CALL", "S": "icontract.InvariantCheckEvent.SETATTR", "A": "icontract.InvariantCheckEvent.ALL"}
 MEMBER_OPTS = ["-", "bare", "pre", "post", "prepostsnap"]
-PROP_OPTS = ["-", "post"]
+PROP_OPTS = ["-", "post", "extset"]
 
 
 def render_step(i, step):
@@ -64,7 +64,10 @@ def render_step(i, step):
         d = {"bare": "", "pre": "    @icontract.require(p_{0})\n", "post": "    @icontract.ensure(q_{0})\n",
              "prepostsnap": "    @icontract.snapshot(lambda x: x, name='s_{0}')\n    @icontract.require(p_{0})\n    @icontract.ensure(q_{0})\n"}[m].format(name)
         body.append(d + "    def m(self, x=1):\n        return x\n")
-    if step.get("p", "-") != "-":
+    if step.get("p", "-") == "extset":
+        # extend the INHERITED property with a setter only; getter (and its contracts) stay the base's
+        body.append("    @{}.p.setter\n    def p(self, value):\n        pass\n".format(step["bases"][0] if step["bases"] else "object"))
+    elif step.get("p", "-") != "-":
         body.append("    @property\n    @icontract.ensure(pp_{0})\n    def p(self):\n        return 1\n".format(name).replace(
             "@icontract.ensure(pp_{0})".format(name), "@icontract.ensure(lambda self, result: pp_{0}(self))".format(name)))
     if not body:
@@ -177,7 +180,9 @@ def steps_for(existing, tier):
     for bases in base_choices:
         for inv in inv_opts:
             for m in m_opts:
-                for p in (["-"] if tier in ("quick", "tiny") else PROP_OPTS):
+                for p in (["-", "extset"] if tier == "quick" else (["-"] if tier == "tiny" else PROP_OPTS)):
+                    if p == "extset" and (not bases or m != "-" or inv not in ("-", "C")):
+                        continue
                     out.append({"op": "class", "bases": bases, "inv": inv, "m": m, "p": p})
     for c in (["pre"] if tier in ("quick", "tiny") else ["pre", "prepostsnap"]):
         out.append({"op": "func", "c": c})
